@@ -109,7 +109,8 @@ class NicknameSlot(ObjectReference):
 
     _tablename: str
     id_manager: IdManager
-    allocated_id: T.Union[T.Optional[int], SlotState] = None
+    allocated_id: T.Optional[int] = None
+    consumed: bool = False
 
     def __init__(self, tablename: str, id_manager: IdManager):
         self._tablename = tablename
@@ -124,19 +125,20 @@ class NicknameSlot(ObjectReference):
 
     def consume_slot(self):
         "Mark a slot as filled by an object and return its id for use by the object."
-        rc = self.allocated_id
-        self.allocated_id = SlotState.CONSUMED
-        return rc
+        # keep the id: rows that already hold this slot as a field value
+        # (forward references) read it when they are written out
+        self.consumed = True
+        return self.allocated_id
 
     @property
     def status(self):
         "Is the slot empty/unreferenced, allocated/referenced or consumed/used"
         if self.allocated_id is None:
             return SlotState.UNUSED
-        elif isinstance(self.allocated_id, int):
-            return SlotState.ALLOCATED
-        elif self.allocated_id == SlotState.CONSUMED:
+        elif self.consumed:
             return SlotState.CONSUMED
+        else:
+            return SlotState.ALLOCATED
 
     def __repr__(self):
         return f"<NicknameSlot {self._tablename} {self.status} {self.allocated_id}>"
